@@ -205,13 +205,9 @@ func (nc *nodeCase) deliver(name string, sups ...supSpec) procResult {
 	b := cloneBlock(nc.nm.blocks[name])
 	op := "deliver " + name
 	if len(sups) > 0 {
+		// one part per signature, in the order AddSupLink is called (a later signature for the
+		// same source and slot replaces an earlier one)
 		var parts []string
-		type key struct {
-			src string
-			h   uint64
-		}
-		grouped := map[key][]string{}
-		var order []key
 		for _, sp := range sups {
 			var srcHash bc.Hash
 			if sb, ok := nc.nm.blocks[sp.src]; ok {
@@ -224,18 +220,11 @@ func (nc *nodeCase) deliver(name string, sups ...supSpec) procResult {
 			if sp.valid && sp.order < len(nc.env.keys) {
 				nc.noteValid(sp.src, name, sp.order)
 			}
-			k := key{sp.src, sp.srcHeight}
-			if _, ok := grouped[k]; !ok {
-				order = append(order, k)
-			}
 			v := "x"
 			if sp.valid {
 				v = "v"
 			}
-			grouped[k] = append(grouped[k], fmt.Sprintf("%d%s", sp.order, v))
-		}
-		for _, k := range order {
-			parts = append(parts, fmt.Sprintf("%s:%d:%s", k.src, k.h, strings.Join(grouped[k], ",")))
+			parts = append(parts, fmt.Sprintf("%s:%d:%d%s", sp.src, sp.srcHeight, sp.order, v))
 		}
 		op += " sup=" + strings.Join(parts, ";")
 	}
@@ -538,6 +527,25 @@ func (nc *nodeCase) oracleAfterEvent(op string, r procResult) {
 		if nc.restarted {
 			suffix = "-after-restart"
 		}
+		// the link that justifies a checkpoint must come from one of its ancestors (Casper FFG);
+		// O16-1: neither AuthVerification nor applySupLinks checks that
+		if closure[name] && name != "b0" && !nc.justSeen["A"+name] {
+			viaAncestor := false
+			for k := range nc.recvValid {
+				src, tgt := k[:strings.IndexByte(k, '>')], k[strings.IndexByte(k, '>')+1:]
+				if tgt == name && super(k) && closure[src] {
+					for _, a := range nc.ancestors(name)[1:] {
+						if a == src {
+							viaAncestor = true
+						}
+					}
+				}
+			}
+			if !viaAncestor {
+				nc.justSeen["A"+name] = true
+				nc.c.Fail(sig("C16", "justified-by-non-ancestor-link"+suffix), fmt.Sprintf("after %s: %s is justified only through a supermajority link whose source is not one of its ancestors", op, name))
+			}
+		}
 		if !closure[name] && !nc.justSeen[name] {
 			nc.justSeen[name] = true
 			nc.c.Fail(sig("C17", "justified-without-supermajority"+suffix), fmt.Sprintf("after %s: %s is justified, but the validly signed votes that reached the node do not form a chain of supermajority links (> 2/3 of %d validators) from genesis to it", op, name, nVal))
@@ -641,6 +649,7 @@ func runNode(c *Ctx) {
 	c.Rule = "random block trees built from real signed blocks on a reference node, delivered to the node under test in random permutations interleaved with verification messages; a case is one (tree, delivery order, vote schedule); distinct by its op-line sequence"
 	if c.Replay != "" {
 		replayNode(c, c.ReplayLines())
+		closeParkedNodes()
 		return
 	}
 	if lines := c.CorpusLines(); len(lines) > 0 {
@@ -649,6 +658,7 @@ func runNode(c *Ctx) {
 	for i := 0; i < c.N; i++ {
 		runNodeCase(c, mode, c.Seed, i)
 	}
+	closeParkedNodes()
 }
 
 // runNodeCase generates and runs case number k of a seed. Every case has its own PRNG
@@ -667,6 +677,8 @@ func runNodeCase(c *Ctx, mode string, seed int64, k int) {
 		genCaseCrash(c, mode)
 	case "pool":
 		genCasePool(c, mode)
+	case "conc":
+		genCaseConc(c, mode)
 	default:
 		genCaseTree(c, mode)
 	}
@@ -840,6 +852,10 @@ func (nc *nodeCase) campaign() {
 	src := anc[0] // usually the direct parent checkpoint
 	if rng.Intn(4) == 0 {
 		src = anc[rng.Intn(len(anc))]
+	}
+	if rng.Intn(10) == 0 {
+		src = cps[rng.Intn(len(cps))] // any stored checkpoint, possibly on another branch
+		nc.c.Count("campaigns-arbitrary-source")
 	}
 	perm := rng.Perm(len(nc.env.keys))
 	k := 1 + rng.Intn(len(perm))
